@@ -41,17 +41,29 @@ class CtxObj:
             else:
                 cctx.response_annotations = {key: tok.encode()}
 
-    def ret(self, tok, key, mutate):
+    def ret(self, tok, key, mutate, work=0):
+        if work:
+            self._s.sleep(work / 2.0)      # a method that takes (virtual) time: other threads run meanwhile
         self._do(tok, key, mutate)
+        if work:
+            self._s.sleep(work / 2.0)
         return tok
 
-    def boom(self, tok, key, mutate):
+    def boom(self, tok, key, mutate, work=0):
+        if work:
+            self._s.sleep(work / 2.0)
         self._do(tok, key, mutate)
+        if work:
+            self._s.sleep(work / 2.0)
         raise ValueError(tok)
 
     @api.oneway
-    def ow(self, tok, key, mutate):
-        self._s.yield_point("ow-start")
+    def ow(self, tok, key, mutate, delay=0):
+        # a one-way method may still be running (and set its annotation) while its serving thread handles later requests
+        if delay:
+            self._s.sleep(delay)
+        else:
+            self._s.yield_point("ow-start")
         self._do(tok, key, mutate)
 
     def plain(self, tok):
@@ -83,7 +95,7 @@ class CtxWorld(World):
     STUB = ["sockets/selector (in-memory) with recording middlebox", "threads (baton scheduler, line pre-emption in handleRequest)",
             "time (virtual clock)", "uuid4 (seeded)"]
     PROBES = ["raise_after_set", "oneway_mutate", "worker_reuse", "handshake_after_raise", "batch", "ping", "prop",
-              "assign_idiom", "mutate_idiom", "multiplex", "thread", "preempted", "pool_full_retry"]
+              "assign_idiom", "mutate_idiom", "multiplex", "thread", "preempted", "pool_full_retry", "oneway_delayed"]
     RULE = ("plan = (server type, pool size 1-2, serializer, 2-3 clients x 1-2 sessions x 1-5 calls of kinds "
             "ret/boom/ow/plain/batch/prop/ping, each with a unique annotation key set by assignment or mutation, "
             "pre-emption probabilities); distinct = distinct interleaving digest; non-trivial = at least two clients' "
@@ -105,7 +117,8 @@ class CtxWorld(World):
         def call():
             kn[0] += 1
             k = rng.choice(["ret", "ret", "boom", "boom", "ow", "plain", "batch", "prop", "ping"])
-            return {"kind": k, "key": "K%03d" % kn[0], "mutate": rng.random() < 0.5, "pause": rng.choice([0, 0, 0.01])}
+            return {"kind": k, "key": "K%03d" % kn[0], "mutate": rng.random() < 0.5, "pause": rng.choice([0, 0, 0.01]),
+                    "ow_delay": rng.choice([0, 0, 0.005, 0.02]), "work": rng.choice([0, 0, 0.01, 0.04])}
 
         clients = []
         for _ in range(nclients):
@@ -188,8 +201,10 @@ class CtxWorld(World):
                             b.ret(tok, c["key"], c["mutate"])
                             b.plain(tok)
                             list(b())
+                        elif kind == "ow":
+                            p.ow(tok, c["key"], c["mutate"], c.get("ow_delay", 0))
                         else:
-                            getattr(p, kind)(tok, c["key"], c["mutate"])
+                            getattr(p, kind)(tok, c["key"], c["mutate"], c.get("work", 0))
                     except ValueError:
                         outcome = "raised"
                     except E.CommunicationError as x:
@@ -225,6 +240,8 @@ class CtxWorld(World):
         sched.settle(5.0)
         if sched.preempts:
             ctx.probe("preempted")
+        if any(c.get("ow_delay") and c["kind"] == "ow" for cl in plan["clients"] for se in cl["sessions"] for c in se):
+            ctx.probe("oneway_delayed")
         self._judge(ctx, plan, net, obj, ops, handshakes)
 
     # ------------------------------------------------------------------
